@@ -735,6 +735,10 @@ class Check(PropertyCheck):
                 otherwise_valid = real.get('ser') == 'ok' and self.probe_hdu(wonly) is None
                 if real['exc'] != 'OSError' and otherwise_valid:
                     bad('refused_with_wrong_exception', f'expected OSError, got {real["exc"]}')
+                elif real['exc'] != 'OSError':
+                    # double fault (the destination exists AND the write would fail anyway): the property's first
+                    # clause has no exception for it - the refusal comes first
+                    bad('refused_with_wrong_exception_double_fault', f'expected OSError, got {real["exc"]} (ser={real.get("ser")})')
         # an option the format's documentation rules out for EVERY region (MUST_FAIL: unknown keyword, DS9
         # precision that is not a non-negative integer, unknown CRTF coordsys, non-header FITS header) makes a
         # write of a non-empty, otherwise serialisable list FAIL (the property lists "bad option" among the
